@@ -68,6 +68,9 @@ type stepJ struct {
 	W      int    `json:"w"` // writer (session) index within the peer, 1-based
 	Call   string `json:"call"`
 	Addr   string `json:"addr"`
+	// Multi: sub-steps issued back to back without waiting for quiescence
+	// in between (racy stimuli).
+	Multi []stepJ `json:"multi"`
 }
 
 type scriptJ struct {
@@ -492,6 +495,7 @@ func (r *run) doStep(st stepJ) error {
 		}
 		c := newFakeConn(st.Conn, local, net.JoinHostPort(p.Remote, "179"), r.tr)
 		r.conns[st.Conn] = c
+		c.held = true
 		pd.ch <- dialDecision{conn: c}
 	case "dialRefuse":
 		pd := r.livePending(st.Peer)
@@ -545,6 +549,12 @@ func (r *run) doStep(st stepJ) error {
 			r.tr.emit(event{E: "ret", P: st.Peer, N: "write", K: int64(st.W), R: errClass(err)})
 		}()
 	case "nop":
+	case "multi":
+		for _, sub := range st.Multi {
+			if err := r.doStep(sub); err != nil {
+				return err
+			}
+		}
 	default:
 		return fmt.Errorf("unknown op %q", st.Op)
 	}
@@ -642,6 +652,11 @@ func runScript(t *testing.T, sc scriptJ, w *bufio.Writer) {
 			if st.Op == "close" {
 				closed = true
 			}
+			for _, sub := range st.Multi {
+				if sub.Op == "close" {
+					closed = true
+				}
+			}
 			synctest.Wait()
 			enc(obsLine{K: "obs", I: i, T: r.tr.nowUnits(), Ev: r.tr.take(), Pend: r.pend()})
 		}
@@ -670,7 +685,7 @@ func runScript(t *testing.T, sc scriptJ, w *bufio.Writer) {
 		}
 		for n, c := range r.conns {
 			c.mu.Lock()
-			if !c.closed {
+			if c.held && !c.closed {
 				end.Unclosed = append(end.Unclosed, n)
 			}
 			c.mu.Unlock()
